@@ -182,12 +182,24 @@ func (p c19) RunBatch(c *fw.Ctx) {
 			}
 		}
 	}
+	// every digit and the underscore in a constant's name (the first value type, every attempt, top level)
+	for _, name := range []string{"K0", "K1", "K2", "K3", "K4", "K5", "K6", "K7", "K8", "K9", "A_9Z", "Z_", "K90"} {
+		for ai, a := range c19Attempts {
+			idx++
+			if idx%c.NBatches != c.Batch {
+				continue
+			}
+			v := c19Vals[(ai+len(name))%2*6] // int or an array
+			p.one(c, []string{c19Init(name, v), c19Instantiate(a, name, v)}, name, fmt.Sprintf("%s|a%d|name", v.name, ai))
+			c.Count("enumerated_sessions", 1)
+		}
+	}
 	c.Sample(map[string]any{"session": []string{"KX = [1, 2, 3]", "func sc1() {KX[0] = 99}; sc1()"}})
 	// random sequences of 2..10 attempts
 	n := c.Pick(300, 6000)
 	for i := 0; i < n; i++ {
 		v := c19Vals[c.Rng.IntN(len(c19Vals))]
-		name := []string{"KX", "A", "MAX_1", "K2B"}[c.Rng.IntN(4)]
+		name := []string{"KX", "A", "MAX_1", "K2B", "K9", "Z0_9", "A5B6C7", "Q_3_4_8", "X_"}[c.Rng.IntN(9)]
 		inputs := []string{c19Init(name, v)}
 		for k := 2 + c.Rng.IntN(9); k > 0; k-- {
 			a := c19Attempts[c.Rng.IntN(len(c19Attempts))]
